@@ -126,8 +126,8 @@ structure Cfg where
   makeNodeAlwaysConsumes : Bool
 deriving Repr, DecidableEq
 
-def Cfg.repo : Cfg := { makeNodeAlwaysConsumes := false }
-def Cfg.fixed : Cfg := { makeNodeAlwaysConsumes := true }
+def Cfg.beforeFix : Cfg := { makeNodeAlwaysConsumes := false }
+def Cfg.current : Cfg := { makeNodeAlwaysConsumes := true }
 
 section ops
 variable {α : Type} [DecidableEq α]
